@@ -4,8 +4,9 @@ Correspondence: real `Die` objects (generated descriptions: blockages, specialis
 regions, fixed rectangles through a Netlist; dyadic coordinates) are refined with
 `split_refinable_regions(r, n)` / `initial_grid(rows, cols)`; `split_rectangles` is
 also called directly on generated rectangle lists.  The state before the call is the
-model's input, the state after it is checked in Coq (vm_compute): exact list equality
-(order included) when phase 2 does not run, the verified checker `phase2_ok`
+model's input, the state after it is checked in Coq (vm_compute): the same rectangles as
+the model's phase-1 list, in any order, when phase 2 does not run (the property promises
+no order of the lists), the verified checker `phase2_ok`
 otherwise (which rectangle of maximum area the heap pops is not part of the
 property), plus `phase2_tight` (the loop stopped as early as it could).
 Histories: sequences of operations on ONE Die object (splits with varying (r, n), initial_grid
@@ -26,7 +27,8 @@ ASSUMPTIONS = [
     "the Die state before the call (bounding box, specialised, ground, blockage and fixed lists as built by the real Die constructor) "
     "is the model's input: how a die is decomposed is C01's subject",
     "which rectangle of maximum area heapq pops and the order of the returned list are not compared (verified checker phase2_ok); "
-    "when phase 2 does not run the lists are compared exactly, order included",
+    "when phase 2 does not run the lists are compared as multisets (perm_rects): the order of the lists is not part of the property; "
+    "grid cells and the lists returned by floorplanning_rectangles() likewise",
     "binary64: coordinates are dyadic so every halving is exact; the aspect-ratio quotient h/w (inverted with 1.0/ar below 1) is rounded "
     "by the code and exact in the model: a case in which, for some rectangle obtainable by halving, the rounded test `aspect_ratio > r` "
     "decides differently from the exact quotient (e.g. a 10 x 17 region with the limit 1.7, whose binary64 value is below 17/10; a "
@@ -535,6 +537,11 @@ def inside(a, b, tol=0):
     return a[0] >= b[0] - tol and a[1] >= b[1] - tol and a[2] <= b[2] + tol and a[3] <= b[3] + tol
 
 
+def bag(l):
+    """a list of regions as a multiset (the property promises no order)"""
+    return sorted((geom(d) for d in l), key=repr)
+
+
 def geom(d):
     return tuple(core.frac(d[k]) for k in ("cx", "cy", "w", "h")) + (d["region"], d["fixed"], d["hard"], d["loc"])
 
@@ -588,8 +595,7 @@ def oracle_history(case, obs):
             b, a = ev["before"], ev["after"]
             if b != a:
                 why = "reading the regions changed the die"
-            elif [list(map(geom, ev["fp"][0])), list(map(geom, ev["fp"][1]))] != \
-                    [list(map(geom, a["spec"] + a["ground"])), list(map(geom, a["fixed"]))]:
+            elif [bag(ev["fp"][0]), bag(ev["fp"][1])] != [bag(a["spec"] + a["ground"]), bag(a["fixed"])]:
                 why = "floorplanning_rectangles() is not (specialised + ground regions, fixed regions)"
             else:
                 why = None
@@ -632,8 +638,7 @@ def oracle(case, obs):
             return f"{what} changed"
     if geom(b["bbox"]) != geom(a["bbox"]):
         return "the die changed"
-    if [list(map(geom, obs["fp"][0])), list(map(geom, obs["fp"][1]))] != \
-            [list(map(geom, a["spec"] + a["ground"])), list(map(geom, a["fixed"]))]:
+    if [bag(obs["fp"][0]), bag(obs["fp"][1])] != [bag(a["spec"] + a["ground"]), bag(a["fixed"])]:
         return "floorplanning_rectangles() is not (specialised + ground regions, fixed regions)"
     before, after = b["spec"] + b["ground"], a["spec"] + a["ground"]
     if any(d["region"] == GROUND for d in a["spec"]) or any(d["region"] != GROUND for d in a["ground"]):
@@ -756,7 +761,7 @@ def nontrivial(case):
 
 
 def run(ctx, out, replay=None):
-    n = 800 if ctx.quick() else 6000
+    n = 700 if ctx.quick() else 6000
     out.rule = ("real Die objects from generated descriptions (0-4 disjoint lattice-aligned blockages / specialised regions / "
                 "fixed rectangles on small, elongated and large dyadic dies), limits 1.42 1.5 1.7 2 3 10 (+ edge values around the "
                 "assert), n in 1..64 (+ non-positive), grids 1..8 x 1..8 (+ refused shapes, non-empty dies), direct calls of "
